@@ -17,7 +17,7 @@ use crate::core::session::{guard, Outcome, Session};
 fn queries(rng: &mut Rng) -> (String, &'static str) {
     let lit = *rng.pick(&["a", "A", "ab", "Ab", "a ", "a  b", "a b"]);
     let n = rng.range(0, 3);
-    match rng.below(14) {
+    match rng.below(17) {
         0 => (format!("SELECT id FROM t1 WHERE c = '{}'", lit), "string-literal-case-space"),
         1 => (format!("SELECT id FROM t1 WHERE c = '{}' ", lit), "trailing-space"),
         2 => (format!("SELECT id  FROM  t1 WHERE c = '{}'", lit), "inner-whitespace"),
@@ -31,6 +31,10 @@ fn queries(rng: &mut Rng) -> (String, &'static str) {
         10 => ("SELECT id FROM public.t1 WHERE a >= 0".to_string(), "schema-qualified"),
         11 => ("SELECT id FROM T1 WHERE a >= 0".to_string(), "table-name-case"),
         12 => (format!("SELECT (SELECT COUNT(*) FROM t2 WHERE a = {}) FROM t1", n), "scalar-subquery-in-select-list"),
+        // a CTE that reuses the name of the base table its own body reads (WITH is not recursive)
+        14 => (format!("WITH t2 AS (SELECT id, a FROM t2 WHERE a >= {}) SELECT id FROM t2", n), "cte-named-like-its-base-table"),
+        15 => ("WITH t1 AS (SELECT id FROM t2), t2 AS (SELECT id FROM t1) SELECT id FROM t2".to_string(), "ctes-swapping-table-names"),
+        16 => (format!("WITH w AS (SELECT id FROM t1 WHERE a = {}), t1 AS (SELECT id FROM w) SELECT id FROM t1", n), "later-cte-named-like-earlier-base-table"),
         _ => (format!("SELECT id FROM t1 WHERE EXISTS (SELECT 1 FROM t2 WHERE t2.a = t1.a AND t2.a >= {})", n), "exists-subquery"),
     }
 }
